@@ -447,6 +447,11 @@ class RandomSource:
     def in_state(self, m, name):
         rng = self.rng
         if name == self.shape["default"]:
+            # the default state's function may hand over to another state (the specification follows it: a regular
+            # state selected that way is dropped again unless engage() is called; MC does not explore it)
+            self.dnth = getattr(self, "dnth", 0) + 1
+            if rng.random() < 0.12 and self.nondef:
+                return {"e": "ns", "s": rng.choice(self.nondef)}
             return None
         self.nth = getattr(self, "nth", 0)
         if m.steps and m.steps[-1]["in"]["e"] in ("execute", "aiter", "nsnow") and m.steps[-1]["out"].get("cb"):
@@ -513,7 +518,12 @@ class ScriptSource:
 def run_trace(tid, shape, extra, source_factory):
     hs.pauseTiming()
     hs.restartTiming()
-    m = Machine(shape, extra)
+    try:
+        m = Machine(shape, extra)
+    except Exception as e:  # noqa  - defining / instantiating the generated machine raised: an observation
+        return {"id": tid, "shape": shape, "extra": extra, "raised": "%s: %s" % (type(e).__name__, e),
+                "steps": [{"in": {"e": "raised"}, "out": {"exec": False, "cur": "<exception while building> %s: %s" % (
+                    type(e).__name__, e), "cb": []}}]}
     src = source_factory(shape)
     m.script = src
     err = None
